@@ -18,6 +18,11 @@ package main
 //	  gun = http2: HTTP/2 TLS target, keep-alives disabled so that every request makes its own TLS handshake;
 //	  behaviours: status | tlsalert (this request's handshake is answered with a TLS alert) |
 //	  h2abort (stream reset before the headers) | h2trunc (body shorter than the declared Content-Length)
+//	  opts may start with p<0|1> (the ammo are POST requests with a body: uripost provider / scenario method POST + body)
+//	  and r<0|1> (gun option `redirect`); cases with r1 run in a child process
+//	  gun = scenario2: the scenario gun over the http2 client (http2/scenario) against the HTTP/2 target
+//	  behaviour redir:<status>:<kind>: the target answers <status> with a Location (see redirAnswer); every Location but
+//	  the `p` kind carries a hop counter ?h=<k>; the target never ends a chain of redirects by itself
 //	step = <beh> <conn> <status> <bodyok> <body> <tok> <pp> <tmpl> <pre>
 //	  beh     shape of the misbehaviour (see respond)            conn/status/bodyok: the abstract response the
 //	  body    hex of the body bytes the server sends, or @<n>     generator claims for it (read by the model only)
@@ -551,6 +556,18 @@ func gunConf(m map[string]any, opts string, answPath string) map[string]any {
 	return m
 }
 
+// splitOpts: optional p<0|1> (the ammo are POST requests with a body) and r<0|1> (gun option `redirect`) in front of
+// the d?t?g?a<filter> options
+func splitOpts(opts string) (post, redirect bool, rest string) {
+	if len(opts) > 2 && opts[0] == 'p' {
+		post, opts = opts[1] == '1', opts[2:]
+	}
+	if len(opts) > 2 && opts[0] == 'r' {
+		redirect, opts = opts[1] == '1', opts[2:]
+	}
+	return post, redirect, opts
+}
+
 func hclString(s string) string {
 	s = strings.ReplaceAll(s, "\\", "\\\\")
 	s = strings.ReplaceAll(s, "\"", "\\\"")
@@ -559,7 +576,7 @@ func hclString(s string) string {
 	return "\"" + s + "\""
 }
 
-func scenarioHCL(steps []step) string {
+func scenarioHCL(steps []step, post bool) string {
 	var b strings.Builder
 	var names []string
 	for i, s := range steps {
@@ -573,7 +590,14 @@ func scenarioHCL(steps []step) string {
 		if s.tmpl == "e" {
 			hdr = "{{index \"abc\" 9}}"
 		}
-		fmt.Fprintf(&b, "request %q {\n  method = \"GET\"\n  uri = %s\n  headers = {\n    Useragent = %s\n  }\n  tag = \"t%d\"\n", name, hclString(uri), hclString(hdr), i)
+		method := "GET"
+		if post {
+			method = "POST"
+		}
+		fmt.Fprintf(&b, "request %q {\n  method = %q\n  uri = %s\n  headers = {\n    Useragent = %s\n  }\n  tag = \"t%d\"\n", name, method, hclString(uri), hclString(hdr), i)
+		if post {
+			fmt.Fprintf(&b, "  body = %s\n", hclString(fmt.Sprintf(`{"req":%d}`, i)))
+		}
 		if k, rest, _ := strings.Cut(s.pre, ":"); k == "i" && i > 0 {
 			idx, _, _ := strings.Cut(rest, ":")
 			fmt.Fprintf(&b, "  preprocessor {\n    mapping = {\n      item = %s\n    }\n  }\n", hclString(fmt.Sprintf("request.r%d.postprocessor.items[%s]", i-1, idx)))
@@ -677,7 +701,7 @@ func needsChild(f []string) bool {
 	if f[0] == "connect" || f[3] == "3" || f[3] == "4" {
 		return true
 	}
-	if len(f) > 4 && strings.HasPrefix(f[4], "r1") {
+	if _, redirect, _ := splitOpts(f[min(4, len(f)-1)]); len(f) > 4 && redirect {
 		return true // following redirects: a chain that never ends is observed as a hang, and the process is then given up
 	}
 	for _, tok := range f {
@@ -701,10 +725,7 @@ func runEngineOnce(t *tokens) string {
 	mode := t.next()
 	refused := mode == "1"
 	opts := t.next()
-	redirect := false
-	if strings.HasPrefix(opts, "r") && len(opts) > 2 { // r<0|1> in front of the other options: gun option `redirect`
-		redirect, opts = opts[1] == '1', opts[2:]
-	}
+	post, redirect, opts := splitOpts(opts)
 	iters := t.num()
 	var steps []step
 	for n := t.num(); n > 0; n-- {
@@ -723,7 +744,7 @@ func runEngineOnce(t *tokens) string {
 	var addr string
 	var rawTarget *target
 	rt := newRedirTracker()
-	if gun == "http2" {
+	if gun == "http2" || gun == "scenario2" {
 		srv := newH2Target(steps, mode != "2", rt)
 		addr = srv.Listener.Addr().String()
 		if refused {
@@ -765,21 +786,28 @@ func runEngineOnce(t *tokens) string {
 	caseNo++
 	var ammo map[string]any
 	times := len(steps)
-	if gun == "scenario" {
+	if gun == "scenario" || gun == "scenario2" {
 		path := fmt.Sprintf("/sc-%d.hcl", caseNo)
-		_ = afero.WriteFile(fs, path, []byte(scenarioHCL(steps)), 0o644)
+		_ = afero.WriteFile(fs, path, []byte(scenarioHCL(steps, post)), 0o644)
 		defer fs.Remove(path)
 		ammo = map[string]any{"type": "http/scenario", "file": path}
 		times = iters
 	} else {
 		path := fmt.Sprintf("/ammo-%d.uri", caseNo)
 		var b strings.Builder
+		ammoType := "uri"
 		for i := range steps {
-			fmt.Fprintf(&b, "/b/%d\n", i)
+			if post { // uripost: <body size> <uri>, then the body
+				body := fmt.Sprintf(`{"req":%d}`, i)
+				fmt.Fprintf(&b, "%d /b/%d\n%s\n", len(body), i, body)
+				ammoType = "uripost"
+			} else {
+				fmt.Fprintf(&b, "/b/%d\n", i)
+			}
 		}
 		_ = afero.WriteFile(fs, path, []byte(b.String()), 0o644)
 		defer fs.Remove(path)
-		ammo = map[string]any{"type": "uri", "file": path, "limit": len(steps)}
+		ammo = map[string]any{"type": ammoType, "file": path, "limit": len(steps)}
 	}
 	answPath := filepath.Join(os.TempDir(), fmt.Sprintf("hC19-answ-%d-%d.log", os.Getpid(), caseNo))
 	guntype := "http"
@@ -788,6 +816,9 @@ func runEngineOnce(t *tokens) string {
 	}
 	if gun == "http2" {
 		guntype = "http2"
+	}
+	if gun == "scenario2" { // the scenario gun over the http2 client
+		guntype = "http2/scenario"
 	}
 	if gun == "connect" {
 		guntype = "connect"
